@@ -10,7 +10,9 @@ uint64_t in_h; int in_pent, in_err; int s_face[6];
 static int nadj, nconv, nverts;
 static H3Index CHILD;
 int H3_EXPORT(isPentagon)(H3Index h) { __CPROVER_assert(h == in_h || h == CHILD, "isPentagon on the cell (or its centre child)"); return in_pent; }
-H3Error _h3ToFaceIjk(H3Index h, FaceIJK *f) { nconv++; f->face = vp_next_int() & 15; f->coord.i = vp_next_int() & 0xffff; f->coord.j = vp_next_int() & 0xffff; f->coord.k = 0; return (H3Error)in_err; }
+H3Error _h3ToFaceIjk(H3Index h, FaceIJK *f) { nconv++;
+    // a Class II pentagon has all its vertices ON icosahedron edges, so the vertex-based method must run on its centre child
+    __CPROVER_assert(h == CHILD, "faces are derived from the cell itself, for a Class II pentagon from its centre child"); f->face = vp_next_int() & 15; f->coord.i = vp_next_int() & 0xffff; f->coord.j = vp_next_int() & 0xffff; f->coord.k = 0; return (H3Error)in_err; }
 void _faceIjkToVerts(FaceIJK *f, int *res, FaceIJK *v) { __CPROVER_assert(!in_pent, "hexagon vertex function only for hexagons"); nverts++; }
 void _faceIjkPentToVerts(FaceIJK *f, int *res, FaceIJK *v) { __CPROVER_assert(in_pent, "pentagon vertex function only for pentagons"); nverts++; }
 Overage _adjustOverageClassII(FaceIJK *f, int res, int pentLeading4, int substrate) { __CPROVER_assert(!in_pent && substrate == 1 && pentLeading4 == 0 && nadj < 6, "hexagon: one substrate overage adjustment per vertex"); f->face = s_face[nadj++]; return NO_OVERAGE; }
